@@ -16,7 +16,7 @@ func TestVerif_C08(t *testing.T) {
 		t.Skip("not started by the /verif driver")
 	}
 	defer r.Finish()
-	r.SetRule("Each case builds a real tmstate.StateMachine whose every boundary is the harness (mirror channels, driver, recording signer/stores, virtual round timer, scripted consensus strategy) for 2..7 validators with power profiles whose sums land exactly on the 1/3 and 2/3 thresholds, and applies 15..85 PRNG-chosen events: view updates with monotone growth of proposals/prevotes/precommits over several candidate blocks and nil (real signatures), timer firings, strategy answers (any hash / nil / not-ready / held and released late), finalization responses before and after commit wait, height-committed signals, jump-ahead views, views for other rounds, round entrances answered with views already past thresholds or with a committed header (catch-up), block-data arrivals. Ordering decisions come from the case PRNG only; judgements of absence are made at rest (no-op input barrier + sentinel through the consensus manager). Non-trivial = distinct event traces in which the strategy was consulted and at least one of R1/R3/R4/R5 was evaluated.")
+	r.SetRule("Each case builds a real tmstate.StateMachine whose every boundary is the harness (mirror channels, driver, recording signer/stores, virtual round timer, scripted consensus strategy) for 2..7 validators with power profiles whose sums land exactly on the 1/3 and 2/3 thresholds, and applies 15..85 PRNG-chosen events: view updates with monotone growth of proposals/prevotes/precommits over several candidate blocks and nil (real signatures), timer firings, strategy answers (any hash / nil / not-ready / held and released late), finalization responses before and after commit wait, height-committed signals, jump-ahead views, a timer elapse raced with a jump-ahead, bursts in which a timer elapse, the finalization response, the height-committed signal and a view update become ready together while the kernel is busy, views for other rounds, round entrances answered with views already past thresholds or with a committed header (catch-up), block-data arrivals. Ordering decisions come from the case PRNG only; judgements of absence are made at rest (no-op input barrier + sentinel through the consensus manager). Non-trivial = distinct event traces in which the strategy was consulted and at least one of R1/R3/R4/R5 was evaluated.")
 
 	agg := newE2Agg()
 	if i := e2ReplayIndex(r); i >= 0 {
